@@ -135,11 +135,7 @@ func checkNumberInputs(c *C, ins [][]byte, askModel bool) {
 				n, _ := strconv.Atoi(res)
 				pre := b[:n]
 				if !ejson.Valid(pre) {
-					sig := ""
-					if danglingExp.Match(pre) {
-						sig = sigExp
-					}
-					fail(c, "parseNumber accepted a prefix that is not a JSON number", in("number", b, ""), sig)
+					c.Check(false, "parseNumber accepted a prefix that is not a JSON number", in("number", b, ""), "")
 				}
 				c.Hist("number:accepted")
 			} else {
@@ -178,7 +174,7 @@ func checkNumberDocs(c *C, s []byte) {
 			if err == nil {
 				c.Hist("numberdoc:accepted")
 				if !ejson.Valid(doc) {
-					fail(c, "protojson.Unmarshal accepted a document that is not valid JSON", in("doc", doc, ""), sigInvalidAccepted(doc))
+					c.Check(false, "protojson.Unmarshal accepted a document that is not valid JSON", in("doc", doc, ""), "")
 				}
 			} else {
 				c.Hist("numberdoc:rejected")
@@ -214,7 +210,7 @@ func checkNumbersExhaustive(c *C) {
 			if isNumStart(s[0]) {
 				if c.HasModel() {
 					// one round trip: parseNumber before each follower, and the grammar's own voice
-					// (RFC.Number decided through parseNumberFixed, theorem C21.number_iff, and Ref.isNumber)
+					// (RFC.Number decided through parseNumber, theorem C21.number_iff, and Ref.isNumber)
 					m := strings.Fields(c.Ask("numall %s", vh.Hex(s)))
 					if len(m) != len(numDelims)+1 {
 						c.Compare("numall arity", in("number", s, ""), fmt.Sprint(len(numDelims)+1), strings.Join(m, " "))
@@ -234,11 +230,7 @@ func checkNumbersExhaustive(c *C) {
 						n, _ := strconv.Atoi(res[i])
 						pre := ins[i][:n]
 						if !ejson.Valid(pre) {
-							sig := ""
-							if danglingExp.Match(pre) {
-								sig = sigExp
-							}
-							fail(c, "parseNumber accepted a prefix that is not a JSON number", in("number", ins[i], ""), sig)
+							c.Check(false, "parseNumber accepted a prefix that is not a JSON number", in("number", ins[i], ""), "")
 						}
 						c.Hist("number:accepted")
 					} else {
@@ -531,7 +523,7 @@ func checkDoc(c *C, doc []byte, origin string) {
 	}
 	// json.Decoder level
 	if ok && len(toks) > 0 && !valid {
-		fail(c, "json.Decoder read to EOF a document that is not valid JSON", input, sigInvalidAccepted(doc))
+		c.Check(false, "json.Decoder read to EOF a document that is not valid JSON", input, "")
 	}
 	if ok && len(toks) == 0 {
 		c.Hist("doc:decoder-accepts-empty-input")
@@ -546,7 +538,7 @@ func checkDoc(c *C, doc []byte, origin string) {
 		if err == nil {
 			accepted = true
 			if !valid {
-				fail(c, "protojson.Unmarshal(google.protobuf.Value) accepted a document that is not valid JSON", input, sigInvalidAccepted(doc))
+				c.Check(false, "protojson.Unmarshal(google.protobuf.Value) accepted a document that is not valid JSON", input, "")
 			}
 		}
 	}()
@@ -556,7 +548,7 @@ func checkDoc(c *C, doc []byte, origin string) {
 		if err == nil {
 			accepted = true
 			if !ejson.Valid(wrapped) {
-				fail(c, "protojson.Unmarshal (DiscardUnknown, unknown field) accepted a document that is not valid JSON", in("doc", wrapped, origin), sigInvalidAccepted(wrapped))
+				c.Check(false, "protojson.Unmarshal (DiscardUnknown, unknown field) accepted a document that is not valid JSON", in("doc", wrapped, origin), "")
 			}
 		} else if strict && nestingDepth(doc) < 9000 {
 			c.Check(false, "protojson.Unmarshal (DiscardUnknown) rejected a valid JSON value of an unknown field: "+err.Error(), in("doc", wrapped, origin), "")
@@ -568,7 +560,7 @@ func checkDoc(c *C, doc []byte, origin string) {
 			if err := (protojson.UnmarshalOptions{DiscardUnknown: true}).Unmarshal(doc, m); err == nil {
 				accepted = true
 				if !valid {
-					fail(c, fmt.Sprintf("protojson.Unmarshal(%T) accepted a document that is not valid JSON", m), input, sigInvalidAccepted(doc))
+					c.Check(false, fmt.Sprintf("protojson.Unmarshal(%T) accepted a document that is not valid JSON", m), input, "")
 				}
 			}
 		}
